@@ -66,7 +66,7 @@ func mkStream(t Txn) public_types.APIStreamI {
 		// GetResponse() is nil
 		st := stream_types.NewRequestAPIStream(lunar_messages.OnRequest{
 			ID: "r1", SequenceID: "r1", Method: t.Method, Scheme: "https", URL: t.URL,
-			Query: queryString(t.Query), Headers: hdr,
+			Query: rawQueryOf(t), Headers: hdr,
 		}, sharedState)
 		st.SetType(public_types.StreamTypeResponse)
 		return st
@@ -78,7 +78,7 @@ func mkStream(t Txn) public_types.APIStreamI {
 	}
 	return stream_types.NewRequestAPIStream(lunar_messages.OnRequest{
 		ID: "r1", SequenceID: "r1", Method: t.Method, Scheme: "https", URL: t.URL,
-		Query: queryString(t.Query), Headers: hdr,
+		Query: rawQueryOf(t), Headers: hdr,
 	}, sharedState)
 }
 
